@@ -130,6 +130,54 @@ def all_scopes(unit):
     return out
 
 
+def all_nodes(unit):
+    """Every IR node / program unit object reachable from `unit` (expressions excluded)."""
+    lk = LK()
+    Node, ProgramUnit, Sourcefile = lk['Node'], lk['ProgramUnit'], lk['Sourcefile']
+    out = []
+
+    def visit(o):
+        if isinstance(o, Sourcefile):
+            if o.ir is not None:
+                visit(o.ir)
+        elif isinstance(o, ProgramUnit):
+            out.append(o)
+            for part in o.ir:
+                visit(part)
+        elif isinstance(o, Node):
+            out.append(o)
+            for k in o.__dataclass_fields__:
+                if k not in ('source', 'symbol_attrs', 'parent'):
+                    visit(o.__dict__.get(k))
+        elif isinstance(o, (tuple, list)):
+            for i in o:
+                visit(i)
+    visit(unit)
+    return out
+
+
+def innermost_associate(u):
+    """The most deeply nested Associate of a routine body (first one at maximal depth), or None."""
+    lk = LK()
+    best = [None, 0]
+
+    def visit(o, depth):
+        if isinstance(o, lk['ir'].Associate):
+            depth += 1
+            if depth > best[1]:
+                best[0], best[1] = o, depth
+        if isinstance(o, lk['Node']):
+            for k in o.__dataclass_fields__:
+                if k not in ('source', 'symbol_attrs', 'parent'):
+                    visit(o.__dict__.get(k), depth)
+        elif isinstance(o, (tuple, list)):
+            for i in o:
+                visit(i, depth)
+    if getattr(u, 'body', None) is not None:
+        visit(u.body, 0)
+    return best[0]
+
+
 # ----------------------------------------------------------------------------- type fingerprint
 def _render(v, cache):
     lk = LK()
@@ -338,6 +386,9 @@ def edit_menu(built, path):
                 if rich:
                     es.append(('remove_stmt', tgt, None))
                     es.append(('remove_stmt_inplace', tgt, None))
+            if innermost_associate(u) is not None:
+                es.append(('inner_assoc_inplace', tgt, None))
+                es.append(('inner_assoc_transform', tgt, None))
             if rich:
                 if pick:
                     es.append(('replace_decl', tgt, pick))
@@ -404,6 +455,15 @@ def apply_edit(unit, edit):
         if a is None:
             raise LookupError('no assignment to edit')
         a._update(rhs=sym.Sum((a.rhs, sym.IntLiteral(7))))  # pylint: disable=protected-access
+    elif kind in ('inner_assoc_inplace', 'inner_assoc_transform'):
+        from loki.ir import FindNodes
+        assoc = innermost_associate(u)
+        a = FindNodes(ir.Assignment).visit(assoc.body)[0]
+        if kind == 'inner_assoc_inplace':
+            a._update(rhs=sym.Sum((a.rhs, sym.IntLiteral(3))))  # pylint: disable=protected-access
+        else:
+            # node replacement through a Transformer (scoped nodes on the way are updated in place)
+            u.body = Transformer({a: a.clone(rhs=sym.Sum((a.rhs, sym.IntLiteral(5))))}).visit(u.body)
     elif kind == 'remove_stmt':
         last = u.body.body[-1]
         u.body = Transformer({last: None}).visit(u.body)
